@@ -5,8 +5,21 @@ Import ListNotations.
 Local Open Scope Q_scope.
 
 (* interface: the model is "scale the target by the regenerated factor, add alpha * online" *)
-Lemma frag_polyak tau p t : polyak tau p t == t * polyak_scale tau + polyak_alpha tau * p.
-Proof. unfold polyak, polyak_scale, polyak_alpha. ring. Qed.
+Lemma frag_polyak tau p t :
+  let t1 := t * polyak_scale tau in
+  polyak tau p t == polyak_add_a t1 p tau + polyak_alpha t1 p tau * polyak_add_b t1 p tau /\
+  polyak_out t1 p tau = t1 /\
+  (polyak_scale_op, polyak_add_op, polyak_zip, polyak_zip_first, polyak_zip_second) = (1, 1, 1, 1, 2)%Z.
+Proof. cbn zeta. unfold polyak, polyak_scale, polyak_add_a, polyak_add_b, polyak_alpha, polyak_out. repeat split; try reflexivity. ring. Qed.
+
+(* every polyak_update call of the algorithms: (source list, target list) = (online X, target X) and the coefficient is the configured
+   tau for parameters, 1.0 for running statistics (ids: 1/2 q_net, 3/4 batch_norm_stats, 5/6 critic, 7/8 actor, 9/10 critic stats, 11/12 actor stats) *)
+Lemma frag_polyak_calls tau :
+  (dqn_pu0_src, dqn_pu0_dst, dqn_pu1_src, dqn_pu1_dst) = (1, 2, 3, 4)%Z /\ dqn_pu0_tau tau = tau /\ dqn_pu1_tau tau == 1 /\
+  (sac_pu0_src, sac_pu0_dst, sac_pu1_src, sac_pu1_dst) = (5, 6, 3, 4)%Z /\ sac_pu0_tau tau = tau /\ sac_pu1_tau tau == 1 /\
+  (td3_pu0_src, td3_pu0_dst, td3_pu1_src, td3_pu1_dst, td3_pu2_src, td3_pu2_dst, td3_pu3_src, td3_pu3_dst) = (5, 6, 7, 8, 9, 10, 11, 12)%Z /\
+  td3_pu0_tau tau = tau /\ td3_pu1_tau tau = tau /\ td3_pu2_tau tau == 1 /\ td3_pu3_tau tau == 1.
+Proof. repeat split; reflexivity. Qed.
 
 Lemma polyak_law tau p t : polyak tau p t == (1 - tau) * t + tau * p.
 Proof. unfold polyak. ring. Qed.
@@ -121,3 +134,41 @@ Proof.
   cbn [forallb snd] in H. apply andb_prop in H. destruct H as [Hf Hr]. destruct fl; [discriminate|].
   destruct (IH (unit_step ptau stau s (np, ns, false)) Hr) as (A & B). rewrite A, B. split; reflexivity.
 Qed.
+
+(* ------------------------------------------------------------------ strict versions: a length mismatch is an error, as in Python *)
+Definition target_update_strict (ptau stau : Q) (s : nets) : option nets :=
+  match polyak_list ptau (on_params s) (tg_params s), polyak_list stau (on_stats s) (tg_stats s) with
+  | Some p, Some st => Some (mkN (on_params s) (on_stats s) p st)
+  | _, _ => None
+  end.
+
+Lemma target_update_strict_spec ptau stau s :
+  (length (on_params s) = length (tg_params s) /\ length (on_stats s) = length (tg_stats s) ->
+   target_update_strict ptau stau s = Some (target_update ptau stau s)) /\
+  (length (on_params s) <> length (tg_params s) \/ length (on_stats s) <> length (tg_stats s) -> target_update_strict ptau stau s = None).
+Proof.
+  unfold target_update_strict, target_update, polyak_or_keep. split.
+  - intros [H1 H2]. destruct (polyak_list_total ptau _ _ H1) as [r1 E1]. destruct (polyak_list_total stau _ _ H2) as [r2 E2].
+    rewrite E1, E2. reflexivity.
+  - intros [H|H].
+    + rewrite (polyak_list_mismatch ptau _ _ H). reflexivity.
+    + rewrite (polyak_list_mismatch stau _ _ H). destruct (polyak_list ptau (on_params s) (tg_params s)); reflexivity.
+Qed.
+
+(* ------------------------------------------------------------------ the cadence flags drive the units *)
+Definition with_flags (us : list (list Q * list Q)) (flags : list bool) : list (list Q * list Q * bool) :=
+  map (fun uf => (fst (fst uf), snd (fst uf), snd uf)) (combine us flags).
+
+Lemma units_run_app ptau stau s a b : units_run ptau stau s (a ++ b) = units_run ptau stau (units_run ptau stau s a) b.
+Proof. unfold units_run. apply fold_left_app. Qed.
+
+(* for ANY flag sequence: over a stretch [i, j) of units whose flags are all unset the targets are not written *)
+Theorem no_write_on_unflagged_stretch ptau stau s us flags i j : (i <= j)%nat ->
+  (forall t, (i <= t < j)%nat -> nth t flags false = false) ->
+  let run k := units_run ptau stau s (firstn k (with_flags us flags)) in
+  tg_params (run j) = tg_params (run i) /\ tg_stats (run j) = tg_stats (run i).
+Proof.
+  intros Hij Hf. cbn zeta. set (l := with_flags us flags).
+  replace (firstn j l) with (firstn i l ++ firstn (j - i) (skipn i l)).
+  2:{ rewrite <- (firstn_skipn i (firstn j l)) at 1... }
+Admitted.
